@@ -8,6 +8,8 @@
 #define GMSSL_VERIF_H
 
 #ifdef GUANZHI_GMSSL_VERIF
+# include <stdint.h>
+# include <stddef.h>
 # define VERIF_LOOP_ASSIGNS(...)	__CPROVER_assigns(__VA_ARGS__)
 # define VERIF_LOOP_INVARIANT(...)	__CPROVER_loop_invariant(__VA_ARGS__)
 # define VERIF_LOOP_DECREASES(...)	__CPROVER_decreases(__VA_ARGS__)
@@ -20,6 +22,8 @@
 extern size_t verif_gk;
 /* ghost record of the entropy gateway (set only by the contract that replaces rand_bytes) */
 extern int verif_rb_fail; extern unsigned verif_rb_calls; extern const void *verif_rb_buf; extern size_t verif_rb_len;
+/* ghost record of the nonce source (set only by the contract that replaces sm2_z256_rand_range / sm9_z256_rand_range) */
+extern uint64_t verif_k_drawn[4]; extern unsigned verif_rand_calls; extern int verif_rand_fail;
 #else
 # define VERIF_LOOP_ASSIGNS(...)
 # define VERIF_LOOP_INVARIANT(...)
